@@ -320,6 +320,10 @@ class PMStream(Stream):
             e = case["events"][x["e"]]
             if e["t"] == "bounds":
                 cur = e["sys"]
+            # both subscriptions (regular and operating point) are served whenever reports go out
+            if e["t"] in ("prop", "bounds", "result") and x.get("n_reports") and min(x["n_reports"]) == 0:
+                out.append({"what": f"reports: after event {x['e']} ({e['t']}) the subscriptions received {x['n_reports']} reports "
+                                    f"[regular, operating point]: one of them was not served", "finding": None})
             if x.get("n_reports") and max(x["n_reports"]) > 1 and e["t"] != "sleep":
                 out.append({"what": f"reports: a subscription received {max(x['n_reports'])} reports for the single event {x['e']} (regular and operating-point report streams are mixed)", "finding": None})
             r = x.get("request")
